@@ -136,6 +136,13 @@ Theorem C10mk_varalign_recombines : forall (raw : str) (initial : bool) (p : var
 Proof. exact varalign_recombines. Qed.
 Print Assumptions C10mk_varalign_recombines.
 
+(* only the last backslash of a raw line is the continuation marker (/repo e9b7350):
+   `=\\\`  has the value `\\` and the continuation `\` *)
+Example C10mk_varalign_continuation :
+  exists p, varalign_split [61; 92; 92; 92] true = Ok p /\
+            vp_value p = [92; 92] /\ vp_space_after_value p = [] /\ vp_continuation p = [92].
+Proof. vm_compute. eexists; repeat split; reflexivity. Qed.
+
 Theorem C10mk_varalign_fuel : forall (raw : str) (initial : bool),
   varalign_split raw initial <> OutOfFuel.
 Proof. exact varalign_fuel. Qed.
